@@ -9,7 +9,9 @@ package main
 // has to be PROVED under at least one property, otherwise a proof rests on a
 // clause nobody checks. The audit regenerates the obligations of every
 // function listed in any prop file and reports
-//   (1) assumption-bearing obligations that no prop file claims, and
+//   (1) assumption-bearing obligations that no prop file's label list claims
+//       (ORPHAN: govc check adds them to every property that lists the
+//       function, so they are proved; listed here for information), and
 //   (2) function contracts in the repository's contract files that no prop
 //       file lists although they are not declared opaque (their clauses are
 //       assumed at call sites but never verified).
@@ -125,7 +127,7 @@ func cmdAudit(args []string) int {
 			}
 		}
 	}
-	gaps := 0
+	gaps, orphan := 0, 0
 	var fnames []string
 	for f := range perFunc {
 		fnames = append(fnames, f)
@@ -142,8 +144,8 @@ func cmdAudit(args []string) int {
 			total++
 			oi := perFunc[f][n]
 			if len(oi.claimedBy) == 0 {
-				gaps++
-				fmt.Printf("UNCLAIMED %s  (function listed by %s)  %s\n", n, strings.Join(uniq(listed[f]), ","), truncate(oi.src, 100))
+				orphan++
+				fmt.Printf("ORPHAN %s  (no label list claims it; proved by every property listing the function: %s)  %s\n", n, strings.Join(uniq(listed[f]), ","), truncate(oi.src, 100))
 			}
 		}
 	}
@@ -165,7 +167,7 @@ func cmdAudit(args []string) int {
 		gaps++
 		fmt.Printf("UNVERIFIED-CONTRACT %s (has clauses that callers assume, listed in no prop file, not declared opaque)\n", n)
 	}
-	fmt.Printf("audit: %d assumption-bearing obligations over %d functions in %d prop files; %d declared abstractions ([abs], trusted); %d gaps\n", total, len(fnames), len(props), len(absCount), gaps)
+	fmt.Printf("audit: %d assumption-bearing obligations over %d functions in %d prop files; %d declared abstractions ([abs], trusted); %d orphan clauses (proved under the orphan rule); %d unverified contracts\n", total, len(fnames), len(props), len(absCount), orphan, gaps)
 	if gaps > 0 {
 		return 1
 	}
